@@ -1,2 +1,58 @@
-(* C02: statements only; theorems are added as the model of the anchored mechanism is proved *)
-From GGRS Require Import Base.
+(* C02 — the request list of every advance_frame call is executable and frame-consistent.
+   Statements only.  Model: coq/P2P.v (session core), coq/Sync.v, coq/Queue.v; the user's game is
+   the free game of SessionProofs.v (state = the list of input vectors it was advanced with; a cell
+   holds the frame and state of the save that wrote it; exec fails on a Save that names another
+   frame than the game's, on a Load that is not earlier, or whose cell does not hold the state saved
+   for that frame on the current timeline). *)
+From GGRS Require Import Base Consts Queue Sync P2P Session SessionProofs.
+Open Scope Z_scope.
+
+(* For EVERY operation sequence (local inputs, remote inputs, gossip, endpoint disconnects,
+   disconnect_player, set_input_delay, advance_frame in any order), any number of players, any
+   player kinds, endpoints and spectators, any input delay, any prediction window w >= 0 (rollback
+   and lockstep), both predictors: as long as no assert of the code fires, executing the request
+   lists of all calls in order is well defined, and afterwards the game's frame is current_frame(). *)
+Theorem C02_requests_executable :
+  forall (predict : Z -> Z) (n w d : Z) (kinds : list pkind) (eps : list (list Z)) (nspec : nat)
+         (ops : list sop) (p : p2p) (outs : list (pout * apires)),
+  0 <= w ->
+  srun predict (session_start n w false d kinds eps nspec) ops = Ok (p, outs) ->
+  exists g, exec_outs w (game0 w) outs = Some g /\ gframe g = s_current (ps_sync p) /\ JI w p g.
+Proof.
+  intros predict n w d kinds eps nspec ops p outs Hw H.
+  destruct (requests_executable predict ops _ _ w p outs (JI_start n w d kinds eps nspec Hw) H) as (g & A & B).
+  exists g. split; [exact A|]. split; [apply (ji_frame _ _ _ B)|exact B].
+Qed.
+
+(* One call, from any state that satisfies the invariant (every reachable state does, by the
+   theorem above): its requests execute; the frame is unchanged or - only for advance_frame -
+   exactly one higher; the invariant holds again. *)
+Theorem C02_one_call :
+  forall (predict : Z -> Z) (p : p2p) (op : sop) (sr : sres) (g : game) (w : Z),
+  sstep predict p op = Ok sr -> JI w p g ->
+  exists g', exec w g (o_requests (sr_out sr)) = Some g' /\ JI w (sr_state sr) g' /\
+    (s_current (ps_sync (sr_state sr)) = s_current (ps_sync p) \/
+     (op = SAdvance /\ s_current (ps_sync (sr_state sr)) = s_current (ps_sync p) + 1)) /\
+    loads_in_window w (s_current (ps_sync p)) (o_requests (sr_out sr)) /\
+    (w = 0 -> no_save_load (o_requests (sr_out sr))).
+Proof. exact sstep_exec. Qed.
+
+(* In rollback mode the first simulation of frame 0 is preceded by a save of frame 0. *)
+Theorem C02_first_frame_saved :
+  forall (predict : Z -> Z) (p p' : p2p) (o : pout) (g : game) (w : Z),
+  advance predict p = Ok (p', o, AOk) -> JI w p g -> 1 <= w -> s_current (ps_sync p) = 0 ->
+  exists R, o_requests o = RSave 0 :: R.
+Proof.
+  intros predict p p' o g w H J Hw Hc.
+  destruct (advance_exec predict p p' o AOk g w H J) as (_ & _ & _ & _ & _ & _ & _ & A & _).
+  exact (A Hw eq_refl Hc).
+Qed.
+
+(* non-vacuity: a concrete rollback with a misprediction (two players, window 2) *)
+Definition c02_demo_ops : list sop :=
+  [SLocal 0 1; SAdvance; SLocal 0 1; SAdvance; SRemote 1 0 7; SRemote 1 1 7; SLocal 0 2; SAdvance].
+Example C02_demo :
+  exists p outs, srun (fun x => x) (session_start 2 2 false 0 [KLocal; KRemote 0] [[1]] 0) c02_demo_ops = Ok (p, outs) /\
+    map (fun o => map (fun r => match r with RSave f => (0, f) | RLoad f => (1, f) | RAdvance _ => (2, 0) end) (o_requests (fst o))) outs =
+    [[]; [(0,0);(0,0);(2,0)]; []; [(0,1);(2,0)]; []; []; []; [(1,0);(2,0);(0,1);(2,0);(0,2);(2,0)]].
+Proof. eexists. eexists. split; vm_compute; reflexivity. Qed.
